@@ -525,3 +525,43 @@ def edge_setter_cases():
             if sorted([e.sid1.orient, e.sid2.orient]) != sorted([new_o, other]):
                 return "%r: after %s_orient = %s the orientations are %s %s" % (text, which, new_o, e.sid1.orient, e.sid2.orient)
     return True
+
+
+def clone_value_cases():
+    """for lines of every record type carrying values of every class the decoders return: no mutable value object of the clone IS the
+    object of the original (identity), and the clone has its own datatype table"""
+    import gfapy
+    texts = {"gfa1": ["S\ta\tACGT\tLN:i:4\tab:J:{\"k\": [1, {\"z\": 2}]}\tcd:B:i,1,2\tef:H:0A\tgh:Z:s\tkl:f:0.5\tij:A:x", "L\ta\t+\tb\t-\t2M1I\tID:Z:lk", "C\ta\t+\tb\t+\t1\t3M", "P\tp\ta+,b-\t2M",
+                      "H\txx:i:1\tjj:J:[1]"],
+             "gfa2": ["S\ta\t4\tACGT\tab:J:[1, 2]\tcd:B:f,1.5", "E\te\ta+\tb-\t0\t2\t2\t4$\t0,1", "E\te\ta+\tb-\t2$\t2$\t0\t4$\t2M", "G\tg\ta+\tb-\t10\t*", "F\ta\tx+\t0\t4$\t0\t4\t*",
+                      "O\to\ta+ e+ b-", "U\tu\ta b e", "X\tq\tw\tab:J:[[1]]"]}
+    IMM = (int, float, str, bytes, type(None), bool)          # gfapy.ByteArray is a bytes subclass
+    def mutable_objects(v, depth=0):
+        out = []
+        if isinstance(v, IMM) or isinstance(v, gfapy.Placeholder) or depth > 4:
+            return out
+        out.append(v)
+        if isinstance(v, (list, tuple)):
+            for x in v:
+                out += mutable_objects(x, depth + 1)
+        elif isinstance(v, dict):
+            for x in v.values():
+                out += mutable_objects(x, depth + 1)
+        elif isinstance(v, gfapy.FieldArray):
+            out += mutable_objects(v._data, depth + 1)
+        return out
+    for version, ts in texts.items():
+        for t in ts:
+            for vlevel in (1, 3):
+                l = gfapy.Line(t, version=version, vlevel=vlevel)
+                for k in list(l._data):
+                    l.get(k)
+                c = l.clone()
+                if c._datatype is l._datatype:
+                    return "%r: the clone shares the datatype table" % t
+                for k in l._data:
+                    mine = {id(x) for x in mutable_objects(l._data[k])}
+                    for x in mutable_objects(c._data.get(k)):
+                        if id(x) in mine:
+                            return "%r: field %s of the clone holds the original's %s object" % (t, k, type(x).__name__)
+    return True
